@@ -109,7 +109,9 @@ def check_C02(ctx):
     # S->I: every call history of length <= L on generators of 0,1,2,3,5 frames
     cfg = S("gen", "Gen_Generator.cfg" if q else "Gen_Generator_thorough.cfg")
     cases = gen(ctx, "Generator", cfg, S("gen", "Gen_Generator.tla"), workers=4 if q else 8)
-    replay_stage(ctx, "histories", "c02-replay", cases,
+    tiny = render_family_voice(ctx, "tiny", "NStates = {1}  Shapes = {2}  Salts = {1}  Stages = {0}  WinSets = {3}",
+                               lambda f: f["nstream"] == 3 and not f["gv"] and f["quoted"])
+    replay_stage(ctx, "histories", "c02-replay", cases, extra_args=[tiny, label_table_json(ctx)],
                  distinct_key=lambda c: json.dumps([c["total"], [(h["act"], h["buf"]) for h in c["hist"]]]))
     # I->S: random histories on the bundled voice (Engine::generator vs Engine::synthesize)
     tp = record_stage(ctx, "bundled", "c02-record", [ctx.seed, 40 if q else 600, 6 if q else 30])
@@ -120,7 +122,7 @@ def check_C02(ctx):
     ]
     return ("model_checking",
             "S->I: all call histories over {step(1..3 frames), query, finish} of length <= L on 0,1,2,3,5-frame generators "
-            "(3 vocoder kinds x 2 frame periods each); I->S: random histories on bundled-voice utterances under random "
+            "(3 directly built vocoder kinds x 2 frame periods each, plus Engine::generator on a rendered one-state voice); I->S: random histories on bundled-voice utterances under random "
             "conditions; distinct = distinct histories / distinct trace events",
             {})
 
@@ -547,6 +549,21 @@ def engine_histories(ctx, n, depth, voice, tag, seed_off=0):
     ctx.seed = saved
     return replay_stage(ctx, "api-histories-" + tag, "engine-replay", cases, extra_args=[voice], timeout=7200,
                         distinct_key=lambda c: json.dumps([(h["act"], h.get("e"), h.get("field"), h.get("s"), h.get("v"), h.get("u"), h.get("g")) for h in c["hist"]]))
+
+
+def render_family_voice(ctx, tag, consts, pred):
+    """Render one member of the voice family (constants of Gen_Voice, predicate on `fam`) to a file in the work directory."""
+    cfgp = ctx.path("Gen_Voice_%s.cfg" % tag)
+    open(cfgp, "w").write("CONSTANTS %s\nSPECIFICATION Spec\nINVARIANT Emit\nCHECK_DEADLOCK FALSE\n" % consts)
+    cases = gen(ctx, "Voice_" + tag, cfgp, S("gen", "Gen_Voice.tla"), workers=2)
+    pick = [c for c in cases if pred(c["fam"])][0]
+    cpath = ctx.path("%s_voice.json" % tag)
+    json.dump(pick["voice"], open(cpath, "w"))
+    vpath = ctx.path("rendered_%s.htsvoice" % tag)
+    p = run_jbv(["render", cpath, vpath])
+    if p.returncode != 0:
+        raise ToolError("render failed: " + p.stderr[-500:])
+    return vpath
 
 
 def rendered_voice_file(ctx):
